@@ -175,8 +175,8 @@ fn elem_depth_checks(sink: &mut Sink, d: (u8, u8), elems: &ElemDepths, what: &st
     if *dt > d.0 || *ds > d.1 {
       sink.impl_failures.push(format!("C08 element deeper than its ST-MOC: element depths ({}, {}) in a ({}, {}) ST-MOC: {}", dt, ds, d.0, d.1, what));
     }
-    sink.emit(&format!("aligned time 64 {} {}", dt, fmt_ranges(tr)), "true", true);
-    sink.emit(&format!("aligned hpx 64 {} {}", ds, fmt_ranges(sr)), "true", true);
+    sink.emit(&format!("st_union_elem_aligned time 64 {} {}", dt, fmt_ranges(tr)), "true", true);
+    sink.emit(&format!("st_union_elem_aligned hpx 64 {} {}", ds, fmt_ranges(sr)), "true", true);
   }
 }
 
@@ -341,6 +341,35 @@ fn c10_pass(sink: &mut Sink, rng: &mut Rng, thorough: bool) {
       sink.emit(&format!("st_contains {} {} {}", ta, t, p), &ans, !a.is_empty());
       let ans = guarded(AssertUnwindSafe(|| (if m2.contains_val(&t, &p) { "true" } else { "false" }).to_string()));
       sink.emit(&format!("st_contains {} {} {}", st_txt(&a), t, p), &ans, !a.is_empty());
+    }
+    // the store's lookup (`filter_timepos`: time in microseconds, position in DEGREES like `filter_pos`), 1 MOC in 8:
+    // the centre of the deepest-level cell `p` (cdshealpix: oracle for the hash only), and a latitude that does not
+    // exist (answer false, never a failure)
+    if i % 8 == 3 && !a.is_empty() {
+      use moc::moc2d::{CellMOC2IntoIterator, CellMOC2Iterator, CellOrCellRangeMOC2IntoIterator, CellOrCellRangeMOC2Iterator, RangeMOC2IntoIterator, RangeMOC2Iterator};
+      let store = moc::storage::u64idx::U64MocStore::get_global_store();
+      let mut txt: Vec<u8> = Vec::new();
+      if (&m2).into_range_moc2_iter().into_cellcellrange_moc2_iter().to_ascii_ivoa(None, false, &mut txt).is_ok() {
+        if let Ok(idx) = store.load_stmoc_from_ascii(std::str::from_utf8(&txt).unwrap()) {
+          let pts: Vec<(u64, u64)> = (0..4).map(|k| (gt[(i as usize + 3 * k) % gt.len()], gs[(i as usize + k) % gs.len()])).collect();
+          let q: Vec<(u64, (f64, f64))> = pts.iter().map(|(t, p)| { let (lon, lat) = cdshealpix::nested::center(29, *p); (*t, (lon.to_degrees(), lat.to_degrees())) }).collect();
+          let res = std::panic::catch_unwind(AssertUnwindSafe(|| store.filter_timepos(idx, q.iter().cloned(), |b| b)));
+          sink.count("lookup:store-filter_timepos");
+          match res {
+            Ok(Ok(v)) => for ((t, p), b) in pts.iter().zip(v.iter()) { sink.emit(&format!("st_contains {} {} {}", st_txt(&a), t, p), if *b { "true" } else { "false" }, true); },
+            Ok(Err(e)) => sink.impl_failures.push(format!("C10 filter_timepos returned an error on a live ST-MOC: {}", e)),
+            Err(_) => for (t, p) in &pts { sink.emit(&format!("st_contains {} {} {}", st_txt(&a), t, p), &panic_answer(), true); },
+          }
+          let res = std::panic::catch_unwind(AssertUnwindSafe(|| store.filter_timepos(idx, vec![(pts[0].0, (10.0f64, 95.0f64)), (pts[0].0, (10.0f64, 45.0f64))].into_iter(), |b| b)));
+          match res {
+            Ok(Ok(v)) if v.len() == 2 && !v[0] => {}
+            Ok(Ok(v)) => sink.impl_failures.push(format!("C10 filter_timepos((10 deg, 95 deg), (10 deg, 45 deg)) answered {:?}", v)),
+            Ok(Err(e)) => sink.impl_failures.push(format!("C10 filter_timepos returned an error on a live ST-MOC: {}", e)),
+            Err(_) => sink.impl_failures.push(format!("C10 filter_timepos failed ({}) on the positions (10 deg, 95 deg), (10 deg, 45 deg)", panic_answer())),
+          }
+          let _ = store.drop(idx);
+        }
+      }
     }
   }
 }
